@@ -64,3 +64,15 @@ func MinInt(a int, b int) (r int)
   ensures r == min(a, b)
   assigns nothing
 @*/
+
+// C42 (flood preventer): peer identifiers. Added block.
+/*@
+func (pid PeerID) Bytes() (r []byte)
+  ensures same-length: len(r) == len(pid)
+  assigns nothing
+
+// base58 encoding (external library): only its frame is assumed
+func (pid PeerID) Pretty() (r string)
+  trusted
+  assigns nothing
+@*/
